@@ -259,6 +259,8 @@ def run(ctx):
                         "summarised loops run a non-negative number of iterations"]
     res.not_decided += ["validity of idx = left + j*inc follows arithmetically from A2 (j*inc <= right-left) and is recorded, not separately decided",
                         "numerical width / height tests"]
+    from .common import hidden_state as _hidden_state
+    _hidden_state(rc, "A7", ['postprocessing.add_points_even', 'postprocessing.add_points_even_knees'], "even-point insertion")
     res.require_instances("C14 obligations", len(res.obligations), 14)
 
 
